@@ -26,22 +26,22 @@ import (
 )
 
 type Ctx struct {
-	Prop   string
-	Tier   string
-	Seed   uint64
-	Out    string
-	ops    *bufio.Writer
-	impl   *bufio.Writer
-	direct *bufio.Writer
-	opsF   *os.File
-	implF  *os.File
-	nOps   int
-	hist   map[string]int
-	nDirectFail int
+	Prop          string
+	Tier          string
+	Seed          uint64
+	Out           string
+	ops           *bufio.Writer
+	impl          *bufio.Writer
+	direct        *bufio.Writer
+	opsF          *os.File
+	implF         *os.File
+	nOps          int
+	hist          map[string]int
+	nDirectFail   int
 	nDirectChecks int
-	samples []string
-	notes   map[string]any
-	lastOp  string
+	samples       []string
+	notes         map[string]any
+	lastOp        string
 }
 
 // Try runs f (a call into the implementation made by a direct oracle) and reports whether it panicked.
